@@ -2,8 +2,12 @@ package main
 
 import (
 	"bytes"
+	"context"
 	"encoding/json"
+	"errors"
 	"fmt"
+	"io"
+	"net/http"
 	"net/http/httptest"
 
 	"github.com/filecoin-project/go-jsonrpc"
@@ -40,6 +44,118 @@ type dCase struct {
 	Ran     string      `json:"ran"`  // "" or "<ns>/<type>/<Method>" of the registration that ran
 	Code    int         `json:"code"` // 0 = result, else error code
 	Oracle  string      `json:"oracle_fail,omitempty"`
+	Client  *dClientUse `json:"client,omitempty"` // the request was made by a real client proxy (Name is what it put on the wire)
+}
+
+type dClientUse struct {
+	NS    string `json:"ns"`
+	Field string `json:"field"`
+	Tag   string `json:"tag,omitempty"`
+}
+
+// proxy struct of the client side of the universe; T0..T4 carry the server-side name of B/FooBar under formatter 0..4
+type dProxy struct {
+	Foo    func() (string, error)
+	Bar    func() (string, error)
+	FooBar func() (string, error)
+	T0     func() (string, error) `rpc_method:"B.FooBar"`
+	T1     func() (string, error) `rpc_method:"B.fooBar"`
+	T2     func() (string, error) `rpc_method:"FooBar"`
+	T3     func() (string, error) `rpc_method:"fooBar"`
+	T4     func() (string, error) `rpc_method:"B_FooBar"`
+}
+
+type dWire struct {
+	srv  *jsonrpc.RPCServer
+	last string
+}
+
+func (w *dWire) ServeHTTP(rw http.ResponseWriter, r *http.Request) {
+	b, _ := io.ReadAll(r.Body)
+	var req struct {
+		Method string `json:"method"`
+	}
+	_ = json.Unmarshal(b, &req)
+	w.last = req.Method
+	r.Body = io.NopCloser(bytes.NewReader(b))
+	w.srv.ServeHTTP(rw, r)
+}
+
+// a real client configured with the server's formatter (or a field tagged with the server-side name) against every
+// registration sequence of the universe: what it puts on the wire and which handler runs
+func dispatchClients(fi int, regSeqs [][]dReg) {
+	f := formatterOf(fi)
+	has := map[int]map[string]bool{1: {"Foo": true, "Bar": true}, 2: {"Foo": true, "FooBar": true}}
+	for _, regs := range regSeqs {
+		var log []string
+		srv := jsonrpc.NewServer(jsonrpc.WithServerMethodNameFormatter(f))
+		for _, rg := range regs {
+			if rg.Type == 1 {
+				srv.Register(rg.NS, &dT1{rg.NS, &log})
+			} else {
+				srv.Register(rg.NS, &dT2{rg.NS, &log})
+			}
+		}
+		wire := &dWire{srv: srv}
+		ts := httptest.NewServer(wire)
+		for _, cns := range []string{"A", "B", ""} {
+			var px dProxy
+			closer, err := jsonrpc.NewMergeClient(context.Background(), ts.URL, cns, []interface{}{&px}, nil, jsonrpc.WithMethodNameFormatter(f))
+			if err != nil {
+				emit(dCase{Fmt: fi, Regs: regs, Aliases: [][2]string{}, Client: &dClientUse{NS: cns}, Oracle: "client construction failed: " + err.Error()})
+				continue
+			}
+			tagged := []func() (string, error){px.T0, px.T1, px.T2, px.T3, px.T4}[fi]
+			tag := []string{"B.FooBar", "B.fooBar", "FooBar", "fooBar", "B_FooBar"}[fi]
+			uses := []struct {
+				field, tag string
+				fn         func() (string, error)
+			}{{"Foo", "", px.Foo}, {"Bar", "", px.Bar}, {"FooBar", "", px.FooBar}, {"T", tag, tagged}}
+			for _, u := range uses {
+				log = nil
+				wire.last = "<none>"
+				_, cerr := u.fn()
+				c := dCase{Fmt: fi, Regs: regs, Aliases: [][2]string{}, Name: wire.last, Client: &dClientUse{NS: cns, Field: u.field, Tag: u.tag}}
+				if c.Regs == nil {
+					c.Regs = []dReg{}
+				}
+				if cerr != nil {
+					c.Code = -32601
+					var je *jsonrpc.JSONRPCError
+					if errors.As(cerr, &je) {
+						c.Code = int(je.Code)
+					}
+				}
+				if len(log) == 1 {
+					c.Ran = log[0]
+				} else if len(log) > 1 {
+					c.Oracle = fmt.Sprintf("%d handlers ran for one request", len(log))
+				}
+				// the name on the wire: the shared formatter applied to the client's namespace and the field name, or the tag
+				wantWire, wantNS, wantM := f(cns, u.field), cns, u.field
+				if u.tag != "" {
+					wantWire, wantNS, wantM = u.tag, "B", "FooBar"
+				}
+				if c.Oracle == "" && c.Name != wantWire {
+					c.Oracle = fmt.Sprintf("client (namespace %q, field %s, tag %q) put method %q on the wire, expected %q", cns, u.field, u.tag, c.Name, wantWire)
+				}
+				// agreement: if the server registered that namespace with a handler having that method, exactly it runs
+				// (namespace-less formatters cannot tell namespaces apart: the last registration of the method name wins)
+				wantRan := ""
+				for _, rg := range regs {
+					if has[rg.Type][wantM] && (rg.NS == wantNS || fi == 2 || fi == 3) {
+						wantRan = fmt.Sprintf("%s/%d/%s", rg.NS, rg.Type, wantM)
+					}
+				}
+				if c.Oracle == "" && wantRan != "" && c.Ran != wantRan {
+					c.Oracle = fmt.Sprintf("client (namespace %q, field %s, tag %q, same formatter as the server) ran %q, the server registered %s for it", cns, u.field, u.tag, c.Ran, wantRan)
+				}
+				emit(c)
+			}
+			closer()
+		}
+		ts.Close()
+	}
 }
 
 func dispatchFamily(seed uint64, tier string, args []string) {
@@ -62,6 +178,7 @@ func dispatchFamily(seed uint64, tier string, args []string) {
 	}
 	for fi := 0; fi < 5; fi++ {
 		f := formatterOf(fi)
+		dispatchClients(fi, regSeqs)
 		// candidate names: every formatted name of the universe under this formatter + a few others
 		nameSet := map[string]bool{"Al": true, "Al2": true, "Foo": true, "A.Foo": true, "a.foo": true, "A.FOO": true, "A.": true, "": true, "B.foo": true, ".Foo": true}
 		for _, ns := range nss {
